@@ -65,6 +65,9 @@ def rule_shared_writes(ctx: Ctx, out: Collector) -> None:
                 props.add('C11')
             if 'is_switch' in text or 'case_branch' in text:
                 props.add('C09')
+            chain = ev.inst.chain().lower() + ' ' + text.lower()
+            if 'retry' in chain or 'attempt' in chain:
+                props.add('C12')             # the attempt budget of an execution must not be shared between runs
             rule = 'SH-3' if any(c == 'shared:global' for c in sh) else 'SH-1'
             out.bad(rule, key, ev.where(),
                     f'{how} on the run path writes to an object the run did not create ({roots}): the state survives the '
